@@ -262,6 +262,33 @@ class MechanicHarness(Harness):
             rec.events.append((clock.now, "flush", cur_ip(), bool(refresh)))
             return orig_flush(self_, refresh)
 
+        # system results: the race record is looked up, the node's results are added and stored (once per node).  The race and results
+        # stores are recording stand-ins (StubRace.add_results assigns, like metrics.Race.add_results); calculate_system_results is real
+        results_of = {}
+        keep_alive = []
+        orig_calc = metrics.calculate_system_results
+
+        def calc_system_results(store, node_name):
+            res = orig_calc(store, node_name)
+            results_of[id(res)] = node_name
+            keep_alive.append(res)
+            return res
+
+        class StubRace:
+            results = None
+
+            def add_results(self, results):
+                self.results = results
+
+        class StubRaceStore:
+            def find_by_race_id(self, race_id):
+                return StubRace()
+
+        class StubResultsStore:
+            def store_results(self, race):
+                rec.events.append((clock.now, "results-stored", cur_ip(), results_of.get(id(race.results))))
+
+        saved_metrics = (metrics.calculate_system_results, metrics.race_store, metrics.results_store)
         saved = (supplier.create, provisioner.local, launcher.ProcessLauncher, mechanic.load_team, metrics.InMemoryMetricsStore.flush)
         replies = []
         deliveries = []
@@ -296,6 +323,9 @@ class MechanicHarness(Harness):
             launcher.ProcessLauncher = StubLauncher
             mechanic.load_team = lambda cfg_, external: (None, [])
             metrics.InMemoryMetricsStore.flush = flush
+            metrics.calculate_system_results = calc_system_results
+            metrics.race_store = lambda cfg_: StubRaceStore()
+            metrics.results_store = lambda cfg_: StubResultsStore()
             with rallyenv.patched_time(clock):
                 rcfg = config.Config()
                 if not rcfg.config_present():
@@ -378,6 +408,7 @@ class MechanicHarness(Harness):
                     drain_replies()
         finally:
             supplier.create, provisioner.local, launcher.ProcessLauncher, mechanic.load_team, metrics.InMemoryMetricsStore.flush = saved
+            metrics.calculate_system_results, metrics.race_store, metrics.results_store = saved_metrics
 
         try:
             for kname, v in system.faults.items():
@@ -471,6 +502,12 @@ class MechanicHarness(Harness):
         for ip in {n[0] for n in stopped}:
             if not any(e[1] == "flush" and e[2] == ip and e[3] for e in rec.events):
                 bad("stop", "no-refreshing-flush", f"[{what}]: host {ip} stopped its nodes without flushing system metrics with refresh")
+        # ... and the system results of every stopped node are stored (once)
+        for n in sorted(set(stopped)):
+            k = sum(1 for e in rec.events if e[1] == "results-stored" and e[2] == n[0] and e[3] == n[1])
+            if k != stopped.count(n):
+                bad("stop", "system-results-not-stored" if k < stopped.count(n) else "system-results-stored-twice", f"[{what}]: node {n} was stopped {stopped.count(n)}x but its system results were stored {k}x (stored: {[(e[2], e[3]) for e in rec.events if e[1] == 'results-stored']})")
+                break
         for n in set(stopped):
             root = os.path.join(run_dir, n[0].replace(".", "_"), n[1])
             left = [p for p in ("install", "data") if os.path.exists(os.path.join(root, p))]
